@@ -8,6 +8,11 @@ def cases(tier, seed):
     rng = random.Random(seed * 2221 + 1)
     pool = [g for g, _ in G.grammars('quick', seed, n_random=400, exhaustive_prods=2)]
     n = 2500 if tier == 'quick' else 25000
+    for i in range(n // 5):
+        # a host whose own variables are named like the fresh names of substitute (X#SUBS#i)
+        a = S.random_grammar(rng, ['S', rng.choice(['S#SUBS#0', 'S#SUBS#1', 'A#SUBS#2', 'S#SUBS#2'])], ['a', 'b'], 3, rng.choice([2, 3, 4]))
+        b = S.random_grammar(rng, ['S', 'A'], ['a', 'b'], 2, rng.choice([1, 2, 3]))
+        yield {'A': S.to_json(a), 'B': S.to_json(b), 'same': False}
     for i in range(n // 4):
         a, b = cross_named(rng)
         yield {'A': S.to_json(a), 'B': S.to_json(b), 'same': False}
